@@ -55,6 +55,7 @@ type HSpec struct {
 	RGs      []RGSpec
 	Progs    []PGSpec
 	Comments []string
+	LongComment int // if >0: one more comment line of this many bytes (lines longer than 64 KiB)
 }
 
 func tag2(s string) sam.Tag { return sam.Tag{s[0], s[1]} }
@@ -156,6 +157,9 @@ func (s HSpec) Build() (*sam.Header, error) {
 		}
 	}
 	h.Comments = append([]string(nil), s.Comments...)
+	if s.LongComment > 0 {
+		h.Comments = append(h.Comments, strings.Repeat("c", s.LongComment))
+	}
 	return h, nil
 }
 
@@ -244,6 +248,9 @@ func HSpecGen(minRefs, maxRefs int) *rapid.Generator[HSpec] {
 			s.Progs = append(s.Progs, p)
 		}
 		s.Comments = rapid.SliceOfN(valGen, 0, 3).Draw(t, "comments")
+		if rapid.IntRange(0, 24).Draw(t, "longline") == 0 {
+			s.LongComment = rapid.SampledFrom([]int{4090, 65530, 65536, 70000}).Draw(t, "longcomment")
+		}
 		return s
 	})
 }
@@ -784,7 +791,7 @@ func RecGen(o RecOpt) *rapid.Generator[ARec] {
 		}
 		r.TLen = rapid.SampledFrom([]int{0, 1, -1, 300, -(1 << 31), 1<<31 - 1}).Draw(t, "tlen")
 		r.SeqSeed = uint64(rapid.IntRange(0, 1<<20).Draw(t, "seed"))
-		r.SeqLen = rapid.SampledFrom([]int{0, 1, 2, 3, 4, 5, 10, 33, 100}).Draw(t, "seqlen")
+		r.SeqLen = rapid.SampledFrom([]int{0, 1, 2, 3, 4, 5, 10, 33, 100, 255, 256, 257, 512}).Draw(t, "seqlen")
 		if o.BigSizes {
 			switch rapid.IntRange(0, 14).Draw(t, "big") {
 			case 0: // around the reader's 4096-byte inline buffer (size = 32+name+1+4*ncigar+ceil(l/2)+l+aux)
